@@ -299,6 +299,41 @@ def check(ctx):
     if not ok:
         ctx.violation('C12.R2', INIT, ini, Model.qual(ini), 'ErrorWithLocation.__init__ no longer initialises self.location from its location argument', stmt='__init__ location')
 
+    # add_location leaves an element out only when it is flagged as carrying no location or it is the very element recorded last
+    al = ewl.methods.get('add_location')
+    if al is None:
+        raise AnalysisError('ErrorWithLocation.add_location vanished')
+    aps = sem.paths(al, positional=True, resolver=sem.class_resolver(ewl))
+    if aps is None:
+        ctx.instance('C12.R2', 'add_location: elements are left out only as duplicates of the last one', 'undecided', 'too many paths', nontrivial=False, node=al, file=INIT)
+    else:
+        same = {sem.ccond(sem.parse_expr(x_)) for x_ in ('ARG0 == self.location[-1]', 'ARG0 is self.location[-1]', 'not (ARG0 != self.location[-1])', 'self.location[-1] == ARG0',
+                                                          'self.location[-1] is ARG0')}
+        n_skip = 0
+        bad_path = None
+        for p_ in aps:
+            if p_.outcome[0] == 'raise':
+                continue
+            appended = any(ev[0] in ('call', 'in-loop:call') and len(ev) > 3 and isinstance(ev[3].func, ast.Attribute) and ev[3].func.attr in ('append', 'insert', 'extend')
+                           and sem.ctext(ev[3].func.value) == 'self.location' for ev in p_.events) or \
+                any(ev[0] == 'store' and ev[1].startswith('self.location') for ev in p_.events)
+            if appended:
+                continue
+            n_skip += 1
+            lits_ = {(c_[0], c_[1]) for c_ in p_.conds}
+            flagged = any(pol_ and 'no_error_location' in t_ for t_, pol_ in lits_)
+            duplicate = bool(lits_ & same)
+            if not (flagged or duplicate) and bad_path is None:
+                bad_path = p_
+        ok = bad_path is None and n_skip >= 1
+        ctx.instance('C12.R2', 'add_location: %d paths leave the element out, each because it is flagged or is the last recorded element itself' % n_skip,
+                     'ok' if ok else 'VIOLATION', node=al, file=INIT)
+        if not ok:
+            ctx.violation('C12.R2', INIT, al, Model.qual(al),
+                          'add_location drops an element that is neither flagged no_error_location nor the element recorded last (path: %s): a level of the dotted path is lost, '
+                          'so the error text names a component that does not lead to the offending value' % (bad_path.show()[:200] if bad_path is not None else 'no de-duplication path'),
+                          stmt='add_location drops a level')
+
     # ---- R3 / R4 : encode-reachable functions
     roots = []
     for name in CODECS:
@@ -549,3 +584,7 @@ REFACTORS = [
                     e.add_location(member)
                     raise"""),
 ]
+
+MUTANTS.append(dict(name='add_location also drops an element with the name of the last one', file='asn1tools/codecs/__init__.py',
+                    old="""                (not self.location or element != self.location[-1])):""",
+                    new="""                (not self.location or element.name != self.location[-1].name)):""", expect='C12.R2'))
